@@ -160,6 +160,23 @@ static void put_sa(const struct sock_addr * sa)
 	printf("%u %u ", (unsigned)sa->ai_family, (unsigned)sa->ai_socktype);
 	drv_puthex((const uint8_t *)sa->name, sa->namelen);
 }
+/* An address object the caller built is the caller's again when the call it was passed to has
+ * returned: its bytes are overwritten before it is released, and that happens BEFORE the call's
+ * result is looked at (a result that still points into the argument shows). */
+static void done_sa(struct sock_addr * sa)
+{
+	drv_scribble(sa->name, sa->namelen);
+	sock_addr_free(sa);
+}
+/* result pointers start as junk, not as NULL */
+#define DRV_JUNKPTR ((char *)(uintptr_t)0x5a5a5a5a5a5aULL)
+/* the file name is passed in a block of its own that is overwritten and freed after the call */
+static char * scratch_name(void)
+{
+	size_t n = strlen(scratch_file) + 1; char * p = malloc(n);
+	memcpy(p, scratch_file, n);
+	return (p);
+}
 static char * exact_string(const char * tok)
 {
 	size_t n;
@@ -211,9 +228,12 @@ int main(void)
 			size_t olen = b64len(len) + 1;
 			char * out = malloc(olen);
 			memset(out, 0xaa, olen);
+			/* same buffers, flipped contents first (result discarded): a caller re-using its buffers */
+			drv_flip(in, len); b64encode(in, out, len); drv_flip(in, len); memset(out, 0xaa, olen);
 			b64encode(in, out, len);
+			drv_scribble_free(in, len);
 			printf("ok "); drv_puthex((uint8_t *)out, olen); printf("\n");
-			free(in); free(out);
+			free(out);
 		} else if (n == 2 && (strcmp(tok[0], "b64dec") == 0 || strcmp(tok[0], "b64decfull") == 0)) {
 			size_t len; uint8_t * in = drv_unhex(tok[1], &len, 0);
 			size_t cap = (len / 4) * 3;
@@ -222,7 +242,10 @@ int main(void)
 			int rc;
 			if (cap == 0) { free(out); out = malloc(1); }
 			memset(out, 0xaa, cap ? cap : 1);
+			drv_flip(in, len); (void)b64decode((char *)in, len, out, &outlen); drv_flip(in, len);
+			memset(out, 0xaa, cap ? cap : 1); outlen = 12345;
 			rc = b64decode((char *)in, len, out, &outlen);
+			drv_scribble_free(in, len); in = NULL;
 			if (rc != 0) printf("ok none\n");
 			else if (tok[0][6] == 0) {
 				if (outlen > cap) printf("ok outlen-out-of-range %zu\n", outlen);
@@ -246,31 +269,35 @@ int main(void)
 		} else if (n == 2 && strcmp(tok[0], "resolve") == 0) {
 			char * s = exact_string(tok[1]);
 			struct sock_addr ** sas = sock_resolve(s);
+			drv_scribble_str(s); free(s);	/* the address string is the caller's again */
 			put_resolved(sas); printf("\n");
-			sock_addr_freelist(sas); free(s);
+			sock_addr_freelist(sas);
 		} else if (n == 4 && strcmp(tok[0], "pp") == 0) {
 			struct sock_addr * sa = mk_sa(tok[1], tok[2], tok[3]);
 			char * s = sock_addr_prettyprint(sa);
+			done_sa(sa);
 			if (s == NULL) printf("null\n");
 			else { printf("str "); drv_puthex((uint8_t *)s, strlen(s)); printf("\n"); }
-			free(s); sock_addr_free(sa);
+			free(s);
 		} else if (n == 4 && strcmp(tok[0], "ser") == 0) {
 			struct sock_addr * sa = mk_sa(tok[1], tok[2], tok[3]);
-			uint8_t * buf; size_t buflen;
-			if (sock_addr_serialize(sa, &buf, &buflen)) printf("error\n");
+			uint8_t * buf = (uint8_t *)DRV_JUNKPTR; size_t buflen = 12345;
+			int rc = sock_addr_serialize(sa, &buf, &buflen);
+			done_sa(sa);
+			if (rc) printf("error\n");
 			else { printf("ok "); drv_puthex(buf, buflen); printf("\n"); free(buf); }
-			sock_addr_free(sa);
 		} else if (n == 2 && strcmp(tok[0], "deser") == 0) {
 			size_t len; uint8_t * buf = drv_unhex(tok[1], &len, 0);
 			struct sock_addr * sa = sock_addr_deserialize(buf, len);
+			drv_scribble_free(buf, len);
 			if (sa == NULL) printf("none\n");
 			else { printf("sa "); put_sa(sa); printf("\n"); }
-			sock_addr_free(sa); free(buf);
+			sock_addr_free(sa);
 		} else if (n == 2 && strcmp(tok[0], "deserpp") == 0) {
 			/* a decoded address handed straight to the printer */
 			size_t len; uint8_t * buf = drv_unhex(tok[1], &len, 0);
 			struct sock_addr * sa = sock_addr_deserialize(buf, len);
-			free(buf);
+			drv_scribble_free(buf, len);
 			if (sa == NULL) printf("none\n");
 			else {
 				char * s = sock_addr_prettyprint(sa);
@@ -287,15 +314,17 @@ int main(void)
 		} else if (n == 4 && strcmp(tok[0], "dup") == 0) {
 			struct sock_addr * sa = mk_sa(tok[1], tok[2], tok[3]);
 			struct sock_addr * sb = sock_addr_dup(sa);
+			done_sa(sa);
 			if (sb == NULL) printf("error\n");
 			else { printf("sa "); put_sa(sb); printf("\n"); }
-			sock_addr_free(sa); sock_addr_free(sb);
+			sock_addr_free(sb);
 		} else if (n == 2 && strcmp(tok[0], "ensure") == 0) {
 			char * s = exact_string(tok[1]);
 			char * r = sock_addr_ensure_port(s);
+			drv_scribble_str(s); free(s);
 			if (r == NULL) printf("error\n");
 			else { printf("str "); drv_puthex((uint8_t *)r, strlen(r)); printf("\n"); }
-			free(r); free(s);
+			free(r);
 		} else if (n == 4 && strcmp(tok[0], "rtpp") == 0) {
 			struct sock_addr * sa = mk_sa(tok[1], tok[2], tok[3]);
 			char * s = sock_addr_prettyprint(sa);
@@ -305,10 +334,11 @@ int main(void)
 				size_t sl = strlen(s); char * e = malloc(sl + 1); struct sock_addr ** sas;
 				memcpy(e, s, sl + 1);
 				sas = sock_resolve(e);
+				drv_scribble_free(e, sl + 1);
 				printf("rt "); drv_puthex((uint8_t *)s, sl);
 				if (sas == NULL || sas[0] == NULL || sas[1] != NULL) printf(" fail\n");
 				else printf(" %s\n", sock_addr_cmp(sa, sas[0]) ? "diff" : "same");
-				sock_addr_freelist(sas); free(e);
+				sock_addr_freelist(sas);
 			}
 			free(s); sock_addr_free(sa);
 		} else if (n == 4 && strcmp(tok[0], "rtser") == 0) {
@@ -320,16 +350,20 @@ int main(void)
 				uint8_t * e = malloc(buflen ? buflen : 1); struct sock_addr * sb;
 				memcpy(e, buf, buflen);
 				sb = sock_addr_deserialize(e, buflen);
+				drv_scribble_free(e, buflen); drv_scribble_free(buf, buflen);
 				if (sb == NULL) printf("rt none\n");
 				else printf("rt %s\n", sock_addr_cmp(sa, sb) ? "diff" : "same");
-				sock_addr_free(sb); free(e); free(buf);
+				sock_addr_free(sb);
 			}
 			sock_addr_free(sa);
 		} else if (n == 2 && strcmp(tok[0], "aws") == 0) {
 			size_t len; uint8_t * f = drv_unhex(tok[1], &len, 0);
-			char * id = NULL; char * sec = NULL;
+			char * id = DRV_JUNKPTR; char * sec = DRV_JUNKPTR; char * fn; int rc;
 			write_file(f, len);
-			if (aws_readkeys(scratch_file, &id, &sec)) printf("err\n");
+			fn = scratch_name();
+			rc = aws_readkeys(fn, &id, &sec);
+			drv_scribble_str(fn); free(fn);
+			if (rc) printf("err\n");
 			else {
 				printf("ok "); drv_puthex((uint8_t *)id, strlen(id)); printf(" ");
 				drv_puthex((uint8_t *)sec, strlen(sec)); printf("\n");
@@ -338,9 +372,12 @@ int main(void)
 			free(f);
 		} else if (n == 2 && strcmp(tok[0], "rp") == 0) {
 			size_t len; uint8_t * f = drv_unhex(tok[1], &len, 0);
-			char * pw = NULL;
+			char * pw = DRV_JUNKPTR; char * fn; int rc;
 			write_file(f, len);
-			if (readpass_file(&pw, scratch_file)) printf("err\n");
+			fn = scratch_name();
+			rc = readpass_file(&pw, fn);
+			drv_scribble_str(fn); free(fn);
+			if (rc) printf("err\n");
 			else { printf("ok "); drv_puthex((uint8_t *)pw, strlen(pw)); printf("\n"); free(pw); }
 			free(f);
 		} else
